@@ -223,13 +223,35 @@ theorem ckptSteps_ok {s : St} (g : Good s) (he : s.eng = .file) :
   · rw [h]; exact imgOK_file cmds _ _ _ _ (by rw [hla]; exact Nat.le_refl _) exOld
   · rw [h]; exact imgOK_file cmds _ _ _ _ (by rw [hla]; exact Nat.le_refl _) exNew
 
+/-- File `flush()` from a good state. -/
+theorem flushSteps_ok {s : St} (g : Good s) (he : s.eng = .file) :
+    Good (flushSteps s).1 ∧ (flushSteps s).1.cmds = s.cmds ∧ (flushSteps s).1.eng = .file ∧
+      (flushSteps s).1.wal = s.wal ∧ (flushSteps s).1.data = s.data ∧ (flushSteps s).1.la = s.la ∧
+      (flushSteps s).1.dData = s.data ∧ (flushSteps s).1.dMeta = s.la ∧
+      ∀ i ∈ (flushSteps s).2, ImgOK .file s.cmds i := by
+  obtain ⟨eng, cmds, data, la, due, dData, dMeta, wal⟩ := s
+  cases he
+  obtain ⟨w0, d, h1, h2, hw, hdd⟩ := g.disk rfl
+  dsimp only at h2 hw hdd
+  have hla : la = cmds.length := g.la_eq
+  have hdata : sameKv data (ref cmds cmds.length) := g.data_ok
+  have hmeta : dMeta ≤ cmds.length := g.meta_le
+  have exNew : ∃ w0 d, w0 ≤ d ∧ d ≤ cmds.length ∧ wal = (recs [] cmds).drop w0 ∧
+      sameKv data (ref cmds d) := ⟨w0, cmds.length, Nat.le_trans h1 h2, Nat.le_refl _, hw, hdata⟩
+  refine ⟨⟨hla, hdata, by simp [flushSteps, hla], fun _ => exNew⟩, rfl, rfl, rfl, rfl, rfl, rfl, rfl, ?_⟩
+  intro i hi
+  simp only [flushSteps, img, List.mem_cons, List.mem_nil_iff, or_false] at hi
+  rcases hi with h | h
+  · rw [h]; exact imgOK_file cmds _ _ _ _ hmeta exNew
+  · rw [h]; exact imgOK_file cmds _ _ _ _ (by rw [hla]; exact Nat.le_refl _) exNew
+
 theorem step_cmds_ext (s : St) (op : Op) : ∃ t, (step s op).1.cmds = s.cmds ++ t := by
   obtain ⟨eng, cmds, data, la, due, dData, dMeta, wal⟩ := s
   cases eng <;> cases op <;> simp only [step]
   case file.apply c => split <;> exact ⟨[c], rfl⟩
-  case file.reopen => split <;> exact ⟨[], by simp⟩
+  case file.reopen => split <;> exact ⟨[], by simp [flushSteps]⟩
   case rocks.apply c => exact ⟨[c], rfl⟩
-  all_goals exact ⟨[], by simp [ckptSteps]⟩
+  all_goals exact ⟨[], by simp [ckptSteps, flushSteps]⟩
 
 /-- one op: the invariant is kept and every image emitted inside the op is OK w.r.t. the new history. -/
 theorem step_ok {s : St} (g : Good s) (op : Op) :
@@ -299,23 +321,39 @@ theorem step_ok {s : St} (g : Good s) (op : Op) :
       exact ⟨gk, hke, by rw [hk]; exact hi⟩
     | flush =>
       simp only [step]
-      exact ⟨⟨hla, hdata, by simp [hla], fun _ => ⟨w0, cmds.length, hw0, Nat.le_refl _, hw, hdata⟩⟩, (by first | rfl | trivial),
-        by simp⟩
+      obtain ⟨gk, hk, hke, _, _, _, _, _, hi⟩ := flushSteps_ok g rfl
+      exact ⟨gk, hke, by rw [hk]; exact hi⟩
     | reopen =>
+      -- Drop: metadata first, then flush; reopen replays the kept WAL over the persisted data
+      have exOld : ∃ w0 d, w0 ≤ d ∧ d ≤ cmds.length ∧ wal = (recs [] cmds).drop w0 ∧
+          sameKv dData (ref cmds d) := ⟨w0, d, h1, h2, hw, hdd⟩
+      have hlan : la ≤ cmds.length := by rw [hla]; exact Nat.le_refl _
+      have exData : ∃ w0 d, w0 ≤ d ∧ d ≤ cmds.length ∧ wal = (recs [] cmds).drop w0 ∧
+          sameKv data (ref cmds d) := ⟨w0, cmds.length, hw0, Nat.le_refl _, hw, hdata⟩
       have hrep : sameKv (applyAll data wal) (ref cmds cmds.length) := by
         rw [hw]; exact replay_tail cmds w0 cmds.length hw0 (Nat.le_refl _) _ hdata
-      simp only [step, recover, img]
-      split
-      · exact ⟨⟨hla, hrep, by simp [hla], fun _ => ⟨w0, cmds.length, hw0, Nat.le_refl _, hw, hdata⟩⟩, (by first | rfl | trivial),
-          by simp⟩
-      · have exNew : ∃ w0 d, w0 ≤ d ∧ d ≤ cmds.length ∧ ([] : List Cmd) = (recs [] cmds).drop w0 ∧
-            sameKv data (ref cmds d) :=
-          ⟨cmds.length, cmds.length, Nat.le_refl _, Nat.le_refl _, (drop_recs_all cmds).symm, hdata⟩
-        refine ⟨⟨hla, hrep, by simp [hla], fun _ => exNew⟩, (by first | rfl | trivial), ?_⟩
-        intro i hi
-        simp only [List.mem_cons, List.mem_nil_iff, or_false] at hi
-        rw [hi]
-        exact imgOK_file cmds _ _ _ _ (by rw [hla]; exact Nat.le_refl _) exNew
+      have exNew : ∃ w0 d, w0 ≤ d ∧ d ≤ cmds.length ∧ ([] : List Cmd) = (recs [] cmds).drop w0 ∧
+          sameKv data (ref cmds d) :=
+        ⟨cmds.length, cmds.length, Nat.le_refl _, Nat.le_refl _, (drop_recs_all cmds).symm, hdata⟩
+      simp only [step, flushSteps, recover, img]
+      by_cases hwe : wal.isEmpty = true
+      · simp only [hwe, if_true]
+        refine ⟨⟨hla, hrep, hlan, fun _ => exData⟩, (by first | rfl | trivial), ?_⟩
+        intro i hi'
+        simp only [List.mem_cons, List.mem_append, List.mem_nil_iff, or_false] at hi'
+        rcases hi' with h | h | h
+        · rw [h]; exact imgOK_file cmds _ _ _ _ hlan exOld
+        · rw [h]; exact imgOK_file cmds _ _ _ _ hlan exData
+        · rw [h]; exact imgOK_file cmds _ _ _ _ hlan exData
+      · simp only [hwe, Bool.false_eq_true, if_false]
+        refine ⟨⟨hla, hrep, hlan, fun _ => exNew⟩, (by first | rfl | trivial), ?_⟩
+        intro i hi'
+        simp only [List.mem_cons, List.mem_append, List.mem_nil_iff, or_false] at hi'
+        rcases hi' with h | (h | h) | h
+        · rw [h]; exact imgOK_file cmds _ _ _ _ hlan exOld
+        · rw [h]; exact imgOK_file cmds _ _ _ _ hlan exData
+        · rw [h]; exact imgOK_file cmds _ _ _ _ hlan exData
+        · rw [h]; exact imgOK_file cmds _ _ _ _ hlan exNew
     | tick =>
       exact ⟨⟨hla, hdata, hmeta, fun _ => ⟨w0, d, h1, h2, hw, hdd⟩⟩, (by first | rfl | trivial), by simp [step]⟩
 
